@@ -1,8 +1,9 @@
 #!/usr/bin/env python3
 """Regenerate /verif/MANIFEST.json from tools/claims.json (one entry per claimed property)."""
-import json
-props = [json.loads(l) for l in open('/verif/properties.jsonl')]
-claims = json.load(open('/verif/tools/claims.json'))
+import json, os
+ROOT = os.path.dirname(os.path.dirname(os.path.abspath(__file__)))
+props = [json.loads(l) for l in open(ROOT+'/properties.jsonl')]
+claims = json.load(open(ROOT+'/tools/claims.json'))
 hooks = claims.pop('_hooks', {})
 na = claims.pop('_not_applicable', {})
 checks = []
@@ -41,5 +42,5 @@ m = {
     "not_applicable": [{"property_id": p['id'], "reason": na.get(p['id'], "check not built yet (build in progress; DESIGN.md §9 gives the order)")}
                        for p in props if p['id'] not in claims],
 }
-json.dump(m, open('/verif/MANIFEST.json', 'w'), indent=1)
+json.dump(m, open(ROOT+'/MANIFEST.json', 'w'), indent=1)
 print("checks:", len(checks), "not_applicable:", len(m["not_applicable"]))
